@@ -51,7 +51,7 @@ func (x *Exec) stdlib(s *State, in *ssa.Call, f *ssa.Function, args []Val) Val {
 		// assumed: a deterministic function; NaN when the divisor is zero or an operand is NaN;
 		// for finite operands with y != 0 the result r has |r| < |y| and the sign of x (or is zero)
 		a, b := args[0].T, args[1].T
-		r := x.define(s, "mod", sfun("math.Mod_", SFloat, a, b))
+		r := x.define(s, "mod", sfun("fmod_", SFloat, a, b))
 		s.assume(Implies(Or(mk(SBool, "fp.isNaN", a), mk(SBool, "fp.isNaN", b), mk(SBool, "fp.isZero", b), mk(SBool, "fp.isInfinite", a)), mk(SBool, "fp.isNaN", r)))
 		fin := And(Not(mk(SBool, "fp.isNaN", a)), Not(mk(SBool, "fp.isNaN", b)), Not(mk(SBool, "fp.isInfinite", a)), Not(mk(SBool, "fp.isZero", b)))
 		s.assume(Implies(fin, And(Not(mk(SBool, "fp.isNaN", r)), Not(mk(SBool, "fp.isInfinite", r)))))
@@ -64,10 +64,19 @@ func (x *Exec) stdlib(s *State, in *ssa.Call, f *ssa.Function, args []Val) Val {
 		ok := sfun("parsefloat_ok", SBool, str)
 		errv := x.fresh(s, "perr", SIface)
 		s.assume(mk(SBool, "=", ok, Eq(errv, T{"inil", SIface})))
-		s.assume(Implies(ok, Not(mk(SBool, "fp.isNaN", v)))) // a successful parse of "NaN" is excluded by assumption
 		return Val{K: vTuple, Parts: []Val{scalar(v), scalar(errv)}}
 	case "strconv.FormatFloat":
-		return scalar(sfun("formatfloat_", SStr, args[0].T))
+		// FormatFloat(v, 'f', -1, 64) is the theory function fmtf_ (shortest plain decimal); any other
+		// format is some other function of the value
+		cargs := in.Common().Args
+		isConst := func(i int, want int64) bool {
+			c, ok := cargs[i].(*ssa.Const)
+			return ok && c.Value != nil && c.Int64() == want
+		}
+		if len(cargs) == 4 && isConst(1, 'f') && isConst(2, -1) && isConst(3, 64) {
+			return scalar(sfun("fmtf_", SStr, args[0].T))
+		}
+		return scalar(sfun("formatfloat_other_", SStr, args[0].T, args[1].T, args[2].T))
 	case "strconv.Itoa":
 		return scalar(sfun("itoa_", SStr, args[0].T))
 	case "strings.HasPrefix":
